@@ -756,6 +756,12 @@ impl RenderNode {
                 if let Some(true) = t.chars().next().map(|c| c.is_whitespace()) {
                     len += 1;
                 }
+                // Text made only of zero-width characters (a lone combining
+                // mark, a zero-width space) still needs a column of its own:
+                // a table column of width zero is not rendered at all.
+                if len == 0 && t.chars().any(|c| !c.is_whitespace()) {
+                    len = 1;
+                }
                 if let Img(_, _) = self.info {
                     len += 2;
                 }
